@@ -303,6 +303,20 @@ func runSocket(c routeCase) (fail *rp.Fail, skipped bool) {
 		conns := 0
 		if p.udp != nil {
 			ulog = p.udp.Log()
+			if name == "broadcast" && !cfg.HasBroadcast {
+				// the well-known port 60000 on the wildcard address also hears what OTHER processes broadcast (another
+				// check running at the same time): only datagrams that carry this call's request are this client's
+				own := ulog[:0:0]
+				for _, r := range ulog {
+					if bytes.Equal(r.Data, wantReq) {
+						own = append(own, r)
+					}
+				}
+				if len(own) != len(ulog) {
+					ev.Excluded("foreign datagrams heard on the shared port 60000", int64(len(ulog)-len(own)))
+				}
+				ulog = own
+			}
 		}
 		if p.tcp != nil {
 			tlog = p.tcp.Log()
